@@ -42,16 +42,30 @@ enum Src {
     SliceIter,
     CompRel,
     CompAbs,
+    /// `filter` adaptor: its size_hint upper bound (2n) exceeds the real length (n)
+    Filtered,
+    /// `str::chars` over a string with multi-byte characters: size_hint upper bound = byte length
+    Chars,
+}
+
+fn is_even(x: &i64) -> bool {
+    x % 2 == 0
+}
+
+fn chars_text(len: usize) -> String {
+    (0..len).map(|i| if i % 2 == 0 { 'a' } else { 'é' }).collect()
 }
 
 impl Src {
-    const ALL: [Src; 4] = [Src::VecInto, Src::SliceIter, Src::CompRel, Src::CompAbs];
+    const ALL: [Src; 6] = [Src::VecInto, Src::SliceIter, Src::CompRel, Src::CompAbs, Src::Filtered, Src::Chars];
     fn name(self) -> &'static str {
         match self {
             Src::VecInto => "Vec::into_iter",
             Src::SliceIter => "slice::iter",
             Src::CompRel => "Path::components(relative)",
             Src::CompAbs => "Path::components(rooted)",
+            Src::Filtered => "Vec::into_iter().filter(even)",
+            Src::Chars => "str::chars(multibyte)",
         }
     }
     fn from_name(s: &str) -> Option<Src> {
@@ -75,6 +89,8 @@ fn base_items(src: Src, len: usize) -> Vec<String> {
         Src::VecInto | Src::SliceIter => (0..len).map(|i| i.to_string()).collect(),
         Src::CompRel => (0..len).map(|i| format!("c{}", i)).collect(),
         Src::CompAbs => (0..len).map(|i| if i == 0 { "/".to_string() } else { format!("c{}", i) }).collect(),
+        Src::Filtered => (0..len).map(|i| (2 * i).to_string()).collect(),
+        Src::Chars => chars_text(len).chars().map(|c| c.to_string()).collect(),
     }
 }
 
@@ -106,6 +122,14 @@ macro_rules! dispatch_src {
             Src::CompRel | Src::CompAbs => {
                 let p = PathBuf::from(comp_path($src, $len));
                 $f(&|| p.components(), &|c: Component| comp_str(c) $(, $arg)*)
+            },
+            Src::Filtered => {
+                let n = 2 * $len as i64;
+                $f(&|| (0..n).collect::<Vec<i64>>().into_iter().filter(is_even as fn(&i64) -> bool), &|x: i64| x.to_string() $(, $arg)*)
+            },
+            Src::Chars => {
+                let t = chars_text($len);
+                $f(&|| t.chars(), &|c: char| c.to_string() $(, $arg)*)
             },
         }
     };
